@@ -706,7 +706,8 @@ class CNLTransformer(Transformer):
             return None
         try:
             entity = self._proposition.get_entity_by_label(label)
-            if entity.get_name() == name[0]:
+            # "with registration R" passes the entity R; "with room id R" names the attribute and gives it the value R
+            if entity.get_name() == name[0] and len(name) == 1:
                 return entity
         except LabelNotFound:
             return None
